@@ -75,6 +75,8 @@ func checkC19(c *Ctx) {
 	c.rule("TABLE-balance", "v2 rebalancing decision over balance factor × child balance factor", 15)
 	checkBalanceTable(c, l, "TABLE-balance", "v2", l.Func("", "*Tree.balance"))
 
+	checkV2TreeRules(c, l)
+
 	// ---- (2)
 	put := l.Func("", "*NodePool.Put")
 	ret := l.Func("", "*Tree.returnNode")
